@@ -106,7 +106,12 @@ macro_rules! rdata_enum {
                     return Err(crate::SimpleDnsError::InsufficientData);
                 }
 
-                parse_rdata(&data[..*position + rdatalen], position, rdatatype)
+                let rdata_end = *position + rdatalen;
+                let rdata = parse_rdata(&data[..rdata_end], position, rdatatype)?;
+
+                // the next entry starts after RDLENGTH bytes, wherever the typed parser stopped
+                *position = rdata_end;
+                Ok(rdata)
             }
 
             fn write_to<T: std::io::Write>(
